@@ -42,6 +42,10 @@ def run_gir(i, args, hooks=None):
         return it.outs, ret, None
     except GirError as e:
         return it.outs, None, "GirError: " + str(e)
+    except OutOfVocabulary as e:
+        if not BATCH.get("strict_vocabulary"):
+            raise
+        return it.outs, None, f"not executable: operation or operand column outside the shared vocabulary ({e})"
     except (ArithmeticError, LookupError, TypeError, ValueError, AttributeError, RecursionError) as e:
         return it.outs, None, type(e).__name__
 
@@ -114,6 +118,9 @@ def prescreen(batch_path):
     res = []
     for i, p in enumerate(BATCH["programs"]):
         status = "ok"
+        if BATCH.get("strict_vocabulary"):
+            res.append(status)
+            continue
         for args in ((1, 2, True), (2, 1, False), (0, 0, False)):
             if not in_bounds(i, args[0], args[1]):
                 continue
